@@ -48,6 +48,17 @@ func (c *ClientService) responseTake(id string) (chan []byte, bool) {
 	return channel, ok
 }
 
+// responsesAbort ends every wait for an answer of this connection: the waiting handlers get no data
+func (c *ClientService) responsesAbort() {
+	c.ResponsesMtx.Lock()
+	defer c.ResponsesMtx.Unlock()
+
+	for id, channel := range c.Responses {
+		close(channel)
+		delete(c.Responses, id)
+	}
+}
+
 // responseDrop forgets id
 func (c *ClientService) responseDrop(id string) {
 	c.ResponsesMtx.Lock()
